@@ -1178,7 +1178,118 @@ func (in *inliner) stmt(s ast.Stmt, within *types.Func) ([]ast.Stmt, bool) {
 	if ns, ch := in.exprsIn(s, within); ch {
 		return []ast.Stmt{ns}, true
 	}
+	if repl, ok := in.hoistCall(s, within); ok {
+		return repl, true
+	}
 	return []ast.Stmt{s}, false
+}
+
+// hoistCall: a statement that calls a new helper of several statements somewhere inside an expression —
+// attrs = append(attrs, attribute.String(strings.TrimSpace(k), unescape(v))) — is `t := unescape(v)` followed by the statement
+// on t, when nothing that is evaluated before the call can tell the difference: the calls written before it are conversions,
+// len/cap or functions of strings/strconv/math/unicode (no effects), the call is evaluated unconditionally (not under && / ||,
+// not in a literal), and no channel receive occurs in the statement. The definition of t is then expanded as any other.
+func (in *inliner) hoistCall(s ast.Stmt, within *types.Func) ([]ast.Stmt, bool) {
+	var roots []ast.Expr
+	switch x := s.(type) {
+	case *ast.AssignStmt:
+		for _, l := range x.Lhs {
+			if _, isID := unparen(l).(*ast.Ident); !isID {
+				return nil, false
+			}
+		}
+		roots = x.Rhs
+	case *ast.ExprStmt:
+		roots = []ast.Expr{x.X}
+	case *ast.ReturnStmt:
+		roots = x.Results
+	default:
+		return nil, false
+	}
+	var target *ast.CallExpr
+	var stack []ast.Node
+	refuse := false
+	var calls []*ast.CallExpr
+	for _, r := range roots {
+		ast.Inspect(r, func(n ast.Node) bool {
+			if n == nil {
+				stack = stack[:len(stack)-1]
+				return true
+			}
+			switch x := n.(type) {
+			case *ast.FuncLit:
+				return false
+			case *ast.UnaryExpr:
+				if x.Op == token.ARROW {
+					refuse = true
+				}
+			case *ast.CallExpr:
+				calls = append(calls, x)
+				if target == nil && unparen(r) != ast.Expr(x) {
+					if fd, f := in.inlinable(x, within); fd != nil && len(fd.Body.List) > 1 && f.Type().(*types.Signature).Results().Len() == 1 {
+						target = x
+						for _, a := range stack {
+							if be, isB := a.(*ast.BinaryExpr); isB && (be.Op == token.LAND || be.Op == token.LOR) {
+								refuse = true
+							}
+						}
+					}
+				}
+			}
+			stack = append(stack, n)
+			return true
+		})
+	}
+	if target == nil || refuse {
+		return nil, false
+	}
+	for _, a := range target.Args {
+		if u, isU := unparen(a).(*ast.UnaryExpr); isU && u.Op == token.AND {
+			return nil, false
+		}
+	}
+	for _, c := range calls {
+		if c == target || c.End() > target.Pos() {
+			continue // evaluated after the helper (it contains the helper's call, or is written after it)
+		}
+		if tv, has := in.info.Types[c.Fun]; has && tv.IsType() {
+			continue
+		}
+		switch builtinName(in.info, c) {
+		case "len", "cap", "min", "max":
+			continue
+		}
+		if f := callee(in.info, c); f != nil && f.Pkg() != nil {
+			switch f.Pkg().Path() {
+			case "strings", "strconv", "math", "unicode", "unicode/utf8":
+				continue
+			}
+		}
+		return nil, false
+	}
+	tv, has := in.info.Types[target]
+	if !has || tv.Type == nil {
+		return nil, false
+	}
+	tmp := types.NewVar(target.Pos(), in.p.Types, "hoisted·", tv.Type)
+	def := &ast.Ident{NamePos: target.Pos(), Name: "hoisted·"}
+	in.info.Defs[def] = tmp
+	as := &ast.AssignStmt{Lhs: []ast.Expr{def}, TokPos: target.Pos(), Tok: token.DEFINE, Rhs: []ast.Expr{target}}
+	pre, ch := in.stmt(as, within)
+	if !ch {
+		return nil, false
+	}
+	cp := &copier{info: in.info, subst: map[types.Object]ast.Expr{}, onCall: func(c *ast.CallExpr) ast.Expr {
+		if c != target {
+			return nil
+		}
+		use := &ast.Ident{NamePos: target.Pos(), Name: "hoisted·"}
+		in.info.Uses[use] = tmp
+		in.info.Types[use] = types.TypeAndValue{Type: tv.Type}
+		return use
+	}}
+	ns := cp.node(s).(ast.Stmt)
+	return append(pre, ns), true
 }
 
 // bodyLiteral: for a call h(args) of a new declared function in a go/defer statement, the call `func(params){ body }(args')`
@@ -2897,6 +3008,18 @@ func (in *inliner) pruneConst(body *ast.BlockStmt) *ast.BlockStmt {
 					if len(s.Lhs) == len(s.Rhs) && (s.Tok == token.DEFINE || s.Tok == token.ASSIGN) {
 						cnt[o]++
 						defs[o] = s.Rhs[i]
+					} else {
+						cnt[o] += 2
+					}
+				}
+			}
+		case *ast.ValueSpec:
+			// var v T is a definition too (the zero value): together with one later assignment the variable has two values
+			for i, nm := range s.Names {
+				if o := in.info.Defs[nm]; o != nil {
+					if len(s.Values) == len(s.Names) {
+						cnt[o]++
+						defs[o] = s.Values[i]
 					} else {
 						cnt[o] += 2
 					}
